@@ -49,4 +49,17 @@ def chain (d : Disk) : List Nat → Disk × Nat × List Bool
       let r := chain d' ts
       (r.1, m + r.2.1, true :: r.2.2)
 
+/-- everything of the restart file `setup_config` has in hand when it applies the stop rule —
+    including `runner.workers`, which the rule (setup.py l.131-135, as it is) does not read -/
+structure RestartCfg where
+  cstep : Nat
+  rfrom : Option Nat
+  steps : Nat
+  workers : Nat
+  deriving Repr, DecidableEq
+
+/-- the stop rule on the whole configuration: reads `current.cstep`, `current.restarted_from`,
+    `simulation.steps` — nothing else -/
+def setupRuleCfg (c : RestartCfg) : Decision := setupRule c.cstep c.rfrom c.steps
+
 end Infretis.SchedCtr
